@@ -24,7 +24,7 @@ func init() { vk.RegisterWorker("c16", worker) }
 
 func Main(prop, tier string) int {
 	r := vk.New("C16", tier)
-	r.Rule = "generated requests handed to the real request handler over net.Pipe with random write splits and early close: valid POSTs (header order/case/duplication, body longer than Content-Length, trailing CRLF), missing/zero/negative/huge/non-numeric/mismatched Content-Length, method/path variants, GET with parameters, unknown actions, 1 MiB(+1) bodies, binary garbage, with and without a configured key (missing, wrong, prefix, suffix, other case, empty, key only in the body, duplicate headers). Oracles: reply grammar (status line, headers, Content-Length-exact body); an action list reaches the action channel iff the request is a complete POST with the exact key, and then equals the parse of the same text as a --bind action list; GET and every rejected request leave the channel empty; without the exact key no state text appears in any reply. Process level: non-local --listen addresses without FZF_API_KEY exit 2; an address classified local is loopback. distinct = (request class, key situation, split plan, outcome) signatures"
+	r.Rule = "generated requests handed to the real request handler over net.Pipe with random write splits and early close: valid POSTs (header order/case/duplication, body longer than Content-Length, trailing CRLF), missing/zero/negative/huge/non-numeric/mismatched Content-Length, method/path variants, GET with parameters, unknown actions, 1 MiB(+1) bodies, binary garbage, with and without a configured key (missing, wrong, prefix, suffix, other case, empty, key only in the body, duplicate headers). Oracles: reply grammar (status line, headers, Content-Length-exact body); an action list reaches the action channel iff the request is a complete POST with the exact key, and then equals the parse of the same text as a --bind action list; GET and every rejected request leave the channel empty; without the exact key no state text appears in any reply. Real TCP inside interactive sessions (private tmux server): after every hostile connection (garbage, truncated and stalled requests, overflowing GET parameters, 70 KB headers, 1 MiB+1 bodies, wrong keys) a valid GET must still answer with an unchanged state and fzf must be alive; POST X on one instance and X bound to a key on another end in the same state; local listeners are bound to loopback. Process level: non-local --listen addresses without FZF_API_KEY exit 2; an address classified local is loopback. distinct = (request class, key situation, split plan, outcome) signatures"
 	r.Assumptions = []string{"the version token after `POST / HTTP` is not validated by fzf and is not a rejection criterion here", "stalled connections are bounded by the server's 10 s read deadline and exercised by the interactive check"}
 	if _, err := fzfrun.Bin(); err != nil {
 		r.Inconclusive(err.Error())
@@ -32,6 +32,9 @@ func Main(prop, tier string) int {
 		return r.Finish()
 	}
 	r.Fanout("c16", vk.NumWorkers(), 30*time.Minute)
+	r.Fanout("c16tcp", vk.NumWorkers(), 30*time.Minute)
+	r.Floor("tcp_hostile_requests", 50)
+	r.Floor("equivalence_pairs", 3)
 	r.Floor("requests", 5000)
 	r.Floor("accepted_posts", 500)
 	r.Floor("keyed_rejections", 500)
